@@ -24,7 +24,7 @@ META = {
         "xsdata.formats.dataclass.serializers.dict:DictEncoder.encode", "xsdata.utils.namespaces:build_qname", "xsdata.utils.namespaces:split_qname",
     ],
     "bounds": [
-        "histories of <= 2 (quick) / <= 3 (thorough) operations, each a selector into a pool of 14 operations (serialize / parse / encode / decode over ParentA, ParentB, Child, "
+        "histories of <= 3 (quick) / <= 4 (thorough) operations, each a selector into a pool of 14 operations (serialize / parse / encode / decode over ParentA, ParentB, Child, "
         "Holder with xsi:type, Wild with wildcard namespace memo, Lists, Basic; lookups without a target class; three failing calls), applied to ONE shared XmlContext, "
         "NodeParser (native and lxml seam handlers), EventGenerator, DictEncoder and DictDecoder; every call's outcome (value or exception class) is compared with the same call on fresh instances",
         "selector driven: every history within the bound is executed (the solver only prunes and enumerates); nothing here is value-symbolic",
@@ -145,6 +145,8 @@ def history(o0: int, o1: int, o2: int) -> bool:
     k2 = concretize(o2, len(OPS) + 1, -1)
     if k2 >= 0:
         ops.append(k2)
+    if "second" in PART:  # thorough tier: histories of length 4 = fixed first and second operation + two symbolic ones
+        ops = [PART["first"], PART["second"]] + ops[1:]
     return _history(ops)
 
 
@@ -184,9 +186,9 @@ EXPLAIN = {"history": lambda o0, o1, o2: [OPS[o][0] for o in ([o0, o1] + ([o2] i
 def plan(tier):
     jobs = []
     for first in range(len(OPS)):
-        # third < 0 means histories of length 2 only; thorough adds every third operation
-        jobs.append(Job("history", {"first": first, "third": 0 if tier == "quick" else len(OPS)}, 240 if tier == "quick" else 1800, 60, note="selector driven"))
-    if tier == "quick":
-        for first in range(len(OPS)):
-            jobs.append(Job("history", {"first": first, "third": len(OPS)}, 600, 60, note="selector driven, length 3"))
+        jobs.append(Job("history", {"first": first, "third": 0}, 240, 60, note="selector driven, length 2"))
+        jobs.append(Job("history", {"first": first, "third": len(OPS)}, 600, 60, note="selector driven, length 2 and 3"))
+        if tier != "quick":
+            for second in range(len(OPS)):
+                jobs.append(Job("history", {"first": first, "second": second, "third": len(OPS)}, 900, 60, note="selector driven, length 4"))
     return jobs
